@@ -510,6 +510,18 @@ func (x *Exec) VerifyFunc(key string) (err error) {
 	if c == nil {
 		return fmt.Errorf("no contract for %s", key)
 	}
+	if c.Trusted != "" && c.NoStore != nil && c.Captures == nil {
+		fn := x.lookupFunc(key)
+		if fn == nil {
+			return fmt.Errorf("cannot bind contract: function %s not found in /repo", key)
+		}
+		x.curFunc = key
+		x.curContract = c
+		x.curInputs = nil
+		st := &State{x: x, heap: map[string]Term{}, cells: map[*Cell]Val{}, ghost: map[string]Term{}, declared: map[string]bool{}, interfered: map[string][]Term{}}
+		x.obligeNoStore(st, key, c, fn)
+		return nil
+	}
 	if c.Trusted != "" && c.Captures != nil {
 		return x.VerifyCaptures(key)
 	}
@@ -646,6 +658,9 @@ func (x *Exec) VerifyFunc(key string) (err error) {
 			}
 			x.oblige(st, fmt.Sprintf("%s/captures:%s", key, fv.Name()), "closure-frame", cp.Tags, goal, fn.Pos(), "the function literal captures only "+cp.Src+" (captured: "+fv.Name()+")")
 		}
+	}
+	if c.NoStore != nil && !x.assumedOnly(c.NoStore) {
+		x.obligeNoStore(st, key, c, fn)
 	}
 	// global frame: the body (and its literals) mentions no package-level variable of its package beyond the listed
 	// ones - process-wide state a function consults or keeps is part of its contract
@@ -2601,4 +2616,45 @@ func (x *Exec) loopOwner(st *State, fr *Frame) string {
 		return x.curFunc
 	}
 	return funcKey(fr.fn, x.pkg.Pkg)
+}
+
+// obligeNoStore: one obligation per store instruction, in fn or a literal inside it, whose target is a field of one of
+// the struct types the nostore clause names (goal false), plus one (goal true) so that the clause is never empty.
+func (x *Exec) obligeNoStore(st *State, key string, c *Contract, fn *ssa.Function) {
+	cl := c.NoStore
+	banned := map[string]bool{}
+	for _, n := range splitLocs(cl.Src) {
+		banned[n] = true
+	}
+	x.oblige(st, key+"/nostore", "store-frame", cl.Tags, tTrue, fn.Pos(), "the function stores to no field of "+cl.Src)
+	var walk func(f *ssa.Function)
+	walk = func(f *ssa.Function) {
+		for _, b := range f.Blocks {
+			for _, in := range b.Instrs {
+				stIn, ok := in.(*ssa.Store)
+				if !ok {
+					continue
+				}
+				fa, ok := stIn.Addr.(*ssa.FieldAddr)
+				if !ok {
+					continue
+				}
+				pt, ok := under(fa.X.Type()).(*types.Pointer)
+				if !ok {
+					continue
+				}
+				sn := structName(pt.Elem())
+				if !banned[sn] {
+					continue
+				}
+				su := under(pt.Elem()).(*types.Struct)
+				name := fmt.Sprintf("%s/nostore:%s.%s@%s", key, sn, su.Field(fa.Field).Name(), posStr(x.fset, stIn.Pos()))
+				x.oblige(st, name, "store-frame", cl.Tags, tFalse, stIn.Pos(), "the function stores to no field of "+cl.Src+" (store to "+sn+"."+su.Field(fa.Field).Name()+")")
+			}
+		}
+		for _, a := range f.AnonFuncs {
+			walk(a)
+		}
+	}
+	walk(fn)
 }
